@@ -301,6 +301,7 @@ func c04Race(ev *evidence.Run, tier string) {
 		"a/a.go": strings.Replace(c03Extra1, "package extra1", "package a", 1),
 		"a/s.go": "package a\n\ntype big struct{ a [200]byte }\ntype small struct{ a byte }\n\nfunc (b big) M(x big, s small) int { return int(x.a[0]) + int(s.a) }\n\nfunc rng(bs []big, ss []small, arr [600]byte) int {\n\tn := 0\n\tfor _, b := range bs {\n\t\tn += int(b.a[0])\n\t}\n\tfor _, s := range ss {\n\t\tn += int(s.a)\n\t}\n\tfor _, x := range arr {\n\t\tn += int(x)\n\t}\n\treturn n\n}\n",
 		"b/b.go": strings.Replace(c03Extra2, "package extra2", "package b", 1),
+		"b/l.go": c02LocalTypes,
 		"c/c.go": c08A,
 	})
 	concs := []int{1, 2, 3, 4, 8, 16}
